@@ -1,20 +1,34 @@
 #!/usr/bin/env python3
-"""eval_mutant.py <property> <patch.diff> [--props C01,C02]  — apply a seeded change to /repo, run the check(s), undo it.
-Prints one line per check: DETECTED (exit 1 + VIOLATION), MISSED (exit 0), UNDECIDED (exit 2). Never leaves /repo modified."""
-import subprocess, sys, os
+"""eval_mutant.py <property> <patch.diff> [--props C01,C02] [--in-repo]
+Runs the check(s) against the tree with a seeded change applied.  Default: a scratch copy of /repo under /var/tmp (VERIF_REPO points the
+extractor at it) so that concurrently running proof work on /repo is not disturbed; --in-repo applies the patch to /repo itself
+(git apply ... ./check ... git checkout -- .) as the task statement describes.  Prints DETECTED (exit 1 + VIOLATION), MISSED (exit 0), UNDECIDED (exit 2)."""
+import subprocess, sys, os, shutil
 prop, patch = sys.argv[1], os.path.abspath(sys.argv[2])
 props = [prop]
 if "--props" in sys.argv:
     props = sys.argv[sys.argv.index("--props") + 1].split(",")
-st = subprocess.run(["git", "-C", "/repo", "status", "--porcelain", "--untracked-files=no"], stdout=subprocess.PIPE).stdout.decode().strip()
-if st:
-    print("REFUSING: /repo has local modifications:\n" + st); sys.exit(3)
-r = subprocess.run(["git", "-C", "/repo", "apply", patch], stdout=subprocess.PIPE, stderr=subprocess.STDOUT)
+in_repo = "--in-repo" in sys.argv
+env = dict(os.environ)
+if in_repo:
+    tree = "/repo"
+    st = subprocess.run(["git", "-C", "/repo", "status", "--porcelain", "--untracked-files=no"], stdout=subprocess.PIPE).stdout.decode().strip()
+    if st:
+        print("REFUSING: /repo has local modifications:\n" + st); sys.exit(3)
+else:
+    tree = "/var/tmp/rdp-eval.%d" % os.getpid()
+    shutil.rmtree(tree, ignore_errors=True)
+    subprocess.check_call(["rsync", "-a", "--exclude", "target", "--exclude", ".git", "/repo/", tree + "/"])
+    subprocess.check_call(["git", "init", "-q"], cwd=tree)
+    env["VERIF_REPO"] = tree
+r = subprocess.run(["git", "apply", patch], cwd=tree, stdout=subprocess.PIPE, stderr=subprocess.STDOUT)
 if r.returncode != 0:
-    print("PATCH DOES NOT APPLY:", r.stdout.decode()[:500]); sys.exit(3)
+    print("PATCH DOES NOT APPLY:", r.stdout.decode()[:500])
+    if not in_repo: shutil.rmtree(tree, ignore_errors=True)
+    sys.exit(3)
 try:
     for p in props:
-        c = subprocess.run(["./check", p], cwd="/verif", stdout=subprocess.PIPE, stderr=subprocess.STDOUT)
+        c = subprocess.run(["./check", p], cwd="/verif", stdout=subprocess.PIPE, stderr=subprocess.STDOUT, env=env)
         out = c.stdout.decode()
         verdict = {0: "MISSED", 1: "DETECTED", 2: "UNDECIDED"}.get(c.returncode, "rc=%d" % c.returncode)
         print("%s %s" % (verdict, p))
@@ -22,6 +36,9 @@ try:
             if l.startswith(("VIOLATION", "UNDECIDED", "KNOWN")):
                 print("    " + l[:260])
 finally:
-    subprocess.run(["git", "-C", "/repo", "checkout", "--", "."])
+    if in_repo:
+        subprocess.run(["git", "-C", "/repo", "checkout", "--", "."])
+    else:
+        shutil.rmtree(tree, ignore_errors=True)
     # evidence files were rewritten by the runs on the mutated tree: restore them from the last commit
     subprocess.run(["git", "-C", "/verif", "checkout", "--", "evidence"], stderr=subprocess.DEVNULL)
